@@ -1219,6 +1219,9 @@ def _adjacency(ctx, ci, cam: FuncInfo, strides, comps, total):
     guarded: Dict[int, bool] = {}
     store_nodes = [st for st in ast.walk(cnode) if isinstance(st, ast.Assign) and
                    isinstance(st.targets[0], ast.Subscript) and isinstance(st.targets[0].slice, ast.Tuple)]
+    # an edge generator: `yield i, j` hands the bond to the code that stores it; the tests that dominate the yield guard it
+    store_nodes += [st for st in ast.walk(cnode) if isinstance(st, ast.Expr) and isinstance(st.value, ast.Yield) and
+                    isinstance(st.value.value, ast.Tuple) and len(st.value.value.elts) == 2]
 
     def dominating_tests(target) -> List[ast.AST]:
         out = []
